@@ -7,6 +7,7 @@ cross-checked against the construction on every fragment (harness self-validatio
 from __future__ import annotations
 
 import itertools
+import re
 
 from mc.core import pool
 
@@ -289,7 +290,7 @@ def worker(task):
 # ---------------------------------------------------------------- decorator / parameter recomposition
 
 DECO_PATHS = ['Embed.alias', 'a.b.c', 'deco']
-DECO_ARGS_Q = ['1', '"s"', '"a,b"', 'f(1, 2)', 'k=v', 'k="a=b, c"', 'l[0]', '{"a": 1, "b": 2}', 'T<A, B>(x)', "'q'", '"(x"', '"a,  b"', '"p\tq"']
+DECO_ARGS_Q = ['1', '"s"', '"a,b"', 'f(1, 2)', 'k=v', 'k="a=b, c"', 'l[0]', '{"a": 1, "b": 2}', 'T<A, B>(x)', "'q'", '"(x"', '"a,  b"', '"p\tq"', '"a=b"', 'f(x=1)', 'a == b', 'w = 1']
 PARAM_TYPES = ['int', 'const int&', 'int*', 'std::map<std::string, int>', 'const T<A, B>&', 'std::function<int(int, int)>', 'std::vector<std::map<int, A>>*']
 PARAM_NAMES = ['n', 'dsn']
 PARAM_DEFAULTS = [None, '0', '{}', 'f(1, "a,b")', '"a=b"', 'A<B, C>(1)', '{1, 2}', "'='", '"(x"', 'std::map<int, int>{{1, 2}}', '"a,  b"', '"p\tq"', '{"x  =  y", "p\tq"}', "' '"]
@@ -304,16 +305,16 @@ def deco_param_cases(ctx, viol, stats):
         for k in range(0, max_args + 1):
             for args in itertools.product(DECO_ARGS_Q, repeat=k):
                 for sep in [', ', ',']:
-                    labels = [a.split('=')[0] for a in args if '=' in a.split('(')[0].split('"')[0]]
+                    is_labelled = lambda a: re.fullmatch(r'[A-Za-z_]\w*\s*=(?!=).*', a, flags=re.DOTALL) is not None   # noqa: E731
+                    labels = [a.split('=')[0] for a in args if is_labelled(a)]
                     if len(set(labels)) != len(labels):
                         continue
                     text = f'{path}({sep.join(args)})' if k or True else path
                     exp_args = {}
                     for i, a in enumerate(args):
-                        head = a.split('"')[0].split('(')[0]
-                        if '=' in head:
+                        if is_labelled(a):
                             label, _, val = a.partition('=')
-                            exp_args[label] = val
+                            exp_args[label.strip()] = val.strip()
                         else:
                             exp_args[str(i)] = a
                     n += 1
@@ -371,6 +372,53 @@ def deco_param_cases(ctx, viol, stats):
                     if got != want:
                         viol.append((['param', 'raises' if isinstance(got, str) else 'wrong', f'default={special_class(d) if d else "none"}' + (',has-brackets' if d and any(c in d for c in '([{<') else '')],
                                      f'Param.parse({text!r}) -> {got!r}, expected {want!r}', {'law': 'param', 'text': text, 'expected': list(want)}))
+    # same-kind nesting: every ordered forest with <= 4 groups of one bracket kind; parse_bracket must return exactly the
+    # groups of that kind, outermost first in document order, each balanced
+    from rogw.tranp.view.helper.block import BlockParser
+
+    def forests(k):
+        if k == 0:
+            yield ()
+            return
+        for first in range(1, k + 1):
+            for sub in forests(first - 1):
+                for rest in forests(k - first):
+                    yield (sub,) + rest
+
+    def render_forest(f, o, c, counter):
+        out = []
+        for sub in f:
+            counter[0] += 1
+            name = 'abcdefgh'[counter[0] % 8]
+            inner = render_forest(sub, o, c, counter)
+            out.append(f'{name}{o}{inner or name}{c}')
+        return ', '.join(out)
+
+    def ref_groups(text, o, c):
+        res, stack = [], []
+        for i, ch in enumerate(text):
+            if ch == o:
+                stack.append((i, len(res)))
+                res.append(None)
+            elif ch == c:
+                b, slot = stack.pop()
+                res[slot] = text[b:i + 1]
+        return res
+    for br in ['()', '[]', '{}', '<>']:
+        for k in range(1, 5):
+            for f in forests(k):
+                if len(f) != 1:
+                    continue   # parse_bracket is applied to one outer group
+                text = render_forest(f, br[0], br[1], [0])
+                n += 1
+                try:
+                    got = BlockParser.parse_bracket(text, br)
+                except Exception as e:  # noqa
+                    got = f'raises:{type(e).__name__}'
+                want = ref_groups(text, br[0], br[1])
+                if got != want:
+                    depth = max(text[:i].count(br[0]) - text[:i].count(br[1]) for i in range(len(text) + 1))
+                    viol.append((['parse_bracket', 'nested-groups', f'depth={depth}'], f'parse_bracket({text!r}, {br!r}) = {got!r}, expected {want!r}', {'law': 'parse_bracket_all', 'text': text, 'brackets': br, 'expected': want}))
     stats['deco_param_cases'] = n
     return n
 
@@ -434,6 +482,10 @@ def replay(ctx, data):
         got = BlockParser.break_last_block(data['text'], data['brackets'])
         if list(got) != data['expected']:
             ctx.violation(['break_last_block', 'replay'], f'{data["text"]!r} -> {got!r}', data)
+    elif law == 'parse_bracket_all':
+        got = BlockParser.parse_bracket(data['text'], data['brackets'])
+        if got != data['expected']:
+            ctx.violation(['parse_bracket', 'replay'], f'{data["text"]!r} -> {got!r}', data)
     elif law == 'parse_bracket':
         got = BlockParser.parse_bracket(data['text'], data['brackets'])
         if not got or got[0] != data['expected']:
